@@ -182,6 +182,9 @@ PROPS = {
                         "plain (non-vectored) header write goes through std's Write::write_all (trusted std, A1)"],
     },
     "C17": {
+        # the only long loop is the 16-byte sync-marker comparison (memcmp): give it its own bound
+        # instead of unwinding every loop and recursion 19 times
+        "kani_args": ["CBMC:--unwindset", "CBMC:memcmp.0:18"],
         "level": "other",
         "design_ref": "DESIGN.md §3 C17",
         "technique": "Kani contract harnesses on the container Reader's state machine put directly into its block-reading state: every truncation offset of a one-block file, framing corruptions, Broken/EOF latches, Take contracts (null codec)",
